@@ -32,6 +32,7 @@ def run(ck, fb):
     r03m(ck, fb)
     r03n(ck, fb)
     r03p(ck, fb)
+    ck.borrow('rules.c20', {'R20e': 'R03q'}, 'a truncation finds its cut point by scanning records from the index entry: the scan must not stop where a read chunk ends exactly on a record boundary, or the cut lands too early (entries below k lost, append at k refused)')
     ck.borrow('rules.c02', {'R02a': 'R03h'}, 'the index-area rewind of strip_log_to sizes what write() stored')
 
 
